@@ -488,8 +488,10 @@ def c12_concurrent(chk, variant):
         n = rng.choice([1, 3, 6])
         c = ol.rand_case(rng, order, d, n, k=500 + q % 40, steps=3, smType=(1 if d >= 2 and q % 3 == 0 else 0))
         prior = q % 2 == 0
+        init_last = (q % 4) in (1, 2)
         rid = f'c{q}'
-        g = c.setup_lines(rid, 'X')
+        g = c.setup_lines(rid, 'X', init_last=init_last)
+        g.append(f'{rid}.h X opt_ptrs {c.slot} {c.slot}')       # hook H1: the cache must be clean after the last setter
         if prior:
             g.append(f'{rid}.p X opt_dim {c.slot}')
         nth = rng.choice([2, 4, 8])
@@ -508,6 +510,11 @@ def c12_concurrent(chk, variant):
                           + ('' if prior else ' (no prior single-threaded call on the freshly configured optimizer)'),
                           dict(c.describe(), threads=nth, prior_single_threaded_call=prior), {'stderr': e.stderr[-1500:]})
             continue
+        hk = rep.get(rid + '.h', {})
+        if 'dirty' in hk and int(hk['dirty'][0]) != 0:
+            chk.violation('the layout cache is left dirty by the last configuration call: the first evaluations (const, possibly '
+                          'concurrent) would rebuild shared state (hook H1)',
+                          dict(c.describe(), init_is_last_setter=init_last), {'dirty': 1})
         ser = rep[rid + '.after']
         tc = rep[rid + '.conc'].get('tcost*', [rep[rid + '.conc'].get('tcost')])
         tg = rep[rid + '.conc'].get('tgrad*', [rep[rid + '.conc'].get('tgrad')])
